@@ -22,7 +22,9 @@
      FRESH    the timestamp is not current or the data does not announce the entity's timeout
      RUNNING  IsHeartbeatRunning, with no other call in progress, differs from "a stream is running"
      DATA     the stored data is not the last refresh (changed without a refresh, or lost)
-     SHAPE    malformed observation list *)
+     SHAPE    malformed observation list
+     STUCK    a call never returned although no goroutine holds stopMux, or a resumed stream neither
+              refreshed nor exited (something keeps a lock for ever) *)
 From Verif Require Import Base.Prelude Model.Heartbeat.
 
 Definition CL_PANIC : Z := 1.
@@ -35,6 +37,7 @@ Definition CL_FRESH : Z := 7.
 Definition CL_RUNNING : Z := 8.
 Definition CL_DATA : Z := 9.
 Definition CL_SHAPE : Z := 10.
+Definition CL_STUCK : Z := 11.
 
 Record mst := {
   m_conf : bool;
@@ -225,7 +228,7 @@ Fixpoint mon_run (m : mst) (g : N) (k : nat) (outs : list obs) : mst * verdict :
   | _ => (m, [CL_SHAPE])
   end.
 
-Definition mon (m0 : mst) (o : op) (outs : list obs) : mst * verdict :=
+Definition mon0 (m0 : mst) (o : op) (outs : list obs) : mst * verdict :=
   let m := with_conf m0 (m_tmo m0) in
   match o with
   | Setup t =>
@@ -271,6 +274,12 @@ Definition mon (m0 : mst) (o : op) (outs : list obs) : mst * verdict :=
       | _ => (m, [CL_SHAPE])
       end
   end.
+
+Definition is_stuck (o : obs) : bool := match o with Stuck => true | _ => false end.
+
+(* whatever the operation: an implementation that got stuck violates "may be called in any order" *)
+Definition mon (m0 : mst) (o : op) (outs : list obs) : mst * verdict :=
+  if existsb is_stuck outs then (with_conf m0 (m_tmo m0), [CL_STUCK]) else mon0 m0 o outs.
 
 (* nothing is excused: no recorded finding for C16 *)
 Definition sst := unit.
